@@ -206,8 +206,14 @@ class CW:
         t = e.term
         v = e.value
         if not isinstance(v, int):
+            # `match old.strong() { 0 => .., _ => .. }`: the otherwise arm of a switch on a count field
+            f = self.field_of(t)
+            if f is not None and f[0] in ("strong", "weak") and isinstance(v, tuple) and v[0] == "not" and len(v[1]) == 1:
+                return _pred(f, "!=", ("c", v[1][0], "u32"), e)
             return None
         f = self.field_of(t)
+        if f is not None and f[0] in ("strong", "weak") and not e.data.get("is_bool"):
+            return _pred(f, "==", ("c", v, "u32"), e)
         if f is not None and f[0] in ("destructed", "weaked"):
             return _pred(f, "==", ("c", v, "bool"), e)
         if isinstance(t, tuple) and t[0] == "bin" and t[1] in _REL:
